@@ -138,7 +138,7 @@ def generate(rng, tier):
         if by is not None:
             by = strip_scaling(by)
             w2 = build(by)
-    return {'spec': spec, 'raw_ts': rng.random() < 0.4, 'backend': rng.choice(['simstream', 'simstream', 'simpath', 'bytesio', 'realpath', 'realfile']),
+    return {'spec': spec, 'raw_ts': rng.random() < 0.4, 'backend': rng.choice(['simstream', 'simstream', 'simpath', 'bytesio', 'realpath', 'realfile', 'rawfile']),
             'dedup_chunk': rng.choice([1, 2, 3, 100]), 'actions': gen_actions(rng, w, w2=w2), 'bystander': by,
             'bystander_first': rng.random() < 0.5,
             'short_seed': rng.getrandbits(32) if rng.random() < 0.2 else None, 'debug_log': rng.random() < 0.05,
